@@ -41,6 +41,13 @@ def produce(doc, fmt, dest, scratch):
         b = io.BytesIO()
         doc.serialize(b, format=fmt)
         return b.getvalue()
+    if dest == "text16":
+        # a text stream whose own encoding is not UTF-8: what counts is the text written through it
+        b = io.BytesIO()
+        w = io.TextIOWrapper(b, encoding="utf-16", newline="")
+        doc.serialize(w, format=fmt)
+        w.flush()
+        return b.getvalue().decode("utf-16")
     p = os.path.join(scratch, "out #1?x;y_%s.%s" % (fmt, fmt))      # characters that are URL syntax
     # the destination exists already and holds a longer file (a previous, larger save to the same path)
     with open(p, "wb") as fh:
@@ -75,18 +82,20 @@ def run_doc(doc, scratch, idx):
     laws = Counter()
     for fmt in FMTS:
         arts = {}
-        for dest in ("string", "text", "binary", "path"):
+        for dest in ("string", "text", "binary", "path", "text16"):
             try:
                 arts[dest] = produce(doc, fmt, dest, scratch)
             except Exception as e:
                 fails.append({"what": "serialize raised", "format": fmt, "destination": dest, "exc": repr(e)[:300]})
-        if len(arts) < 4:
+        if len(arts) < 5:
             continue
-        n += 4
+        n += 5
         text = arts["string"]
         if not isinstance(text, str) or not isinstance(arts["text"], str) or not isinstance(arts["binary"], bytes):
             fails.append({"what": "wrong artefact type", "format": fmt})
             continue
+        if fmt != "rdf" and arts["text16"] != text:
+            fails.append({"what": "a text stream with another encoding received another text", "format": fmt})
         if fmt == "rdf":
             pass        # rdflib's output order is hash dependent: compared through the parsed documents below
         elif fmt == "xml":
@@ -111,6 +120,8 @@ def run_doc(doc, scratch, idx):
                 "content-bytes": lambda: M.ProvDocument.deserialize(content=as_bytes, format=fmt),
                 "text-stream": lambda: M.ProvDocument.deserialize(source=io.StringIO(as_text), format=fmt),
                 "binary-stream": lambda: M.ProvDocument.deserialize(source=io.BytesIO(as_bytes), format=fmt),
+                "text16-stream": lambda: M.ProvDocument.deserialize(
+                    source=io.TextIOWrapper(io.BytesIO(as_text.encode("utf-16")), encoding="utf-16", newline=""), format=fmt),
                 "path": lambda: M.ProvDocument.deserialize(source=p, format=fmt),
                 "read-text-stream": lambda: prov.read(io.StringIO(as_text)),
                 "read-binary-stream": lambda: prov.read(io.BytesIO(as_bytes)),
